@@ -13,6 +13,9 @@
 (* The state machine enumerates all triples of strings over Alphabet of    *)
 (* length <= MaxLen (enumeration in Next, not in Init) and the invariants  *)
 (* state the order axioms and the numeric-run law on each triple.          *)
+(* Alphabet classes: NatSort.cfg digits and a letter; NatSortCtl.cfg the   *)
+(* control bytes 0x00 (NUL, the least byte) and 0x01 next to a digit and a *)
+(* letter: names may hold any bytes, and the end of a name is no byte.     *)
 (***************************************************************************)
 EXTENDS Integers, Sequences, FiniteSets, TLC
 
@@ -101,6 +104,10 @@ Asymmetric  == stage >= 2 => ~(RefLess(a, b) /\ RefLess(b, a))
 Transitive  == stage = 3 /\ RefLess(a, b) /\ RefLess(b, c) => RefLess(a, c)
 Total       == stage >= 2 /\ a # b => RefLess(a, b) \/ RefLess(b, a)
 NumericRuns == stage >= 2 /\ NumericRunsApplies(a, b) => (RefLess(a, b) <=> NumericRunsWant(a, b))
+\* The end of a string is not a byte: a name and the same name followed by any bytes -- NUL bytes included -- are two
+\* names, ordered one way (NatSortCtl.cfg puts 0 and 1 into the alphabet; the recorded relation of the real code is
+\* judged on such pairs by NatSortTrace!RowOK, totality).
+EndIsNotAByte == stage >= 2 /\ Len(a) < Len(b) /\ Take(b, Len(a)) = a => (RefLess(a, b) \/ RefLess(b, a)) /\ ~(RefLess(a, b) /\ RefLess(b, a))
 \* vacuity guard, used by NatSortVacuity.cfg: TLC must find this "invariant" violated
 NumericRunsNeverApplies == ~(stage >= 2 /\ NumericRunsApplies(a, b))
 =============================================================================
